@@ -186,6 +186,8 @@ def run_null(key):
         except Exception as e:
             cl["null_update_completes"] = cl.get("null_update_completes", 0) + 1
             V(res, key, "null_update_completes", {"exception": type(e).__name__, "msg": str(e)[:160]}, hist=hist, exc=type(e).__name__)
+            if isinstance(e, H.UpdateTimeout):
+                raise H.StopExploration()
             return None
         cl["null_update_completes"] = cl.get("null_update_completes", 0) + 1
         child.F, child.t = np.asarray(F, float), t1
